@@ -12,9 +12,20 @@
 (* network output, callable of the geometry), backward mode.                 *)
 (* CopyMode "deep" (as shipped: copy.deepcopy of the merged dict: a leaf      *)
 (* becomes a new detached leaf, a non-leaf cannot be copied) / "shallow".    *)
+(* A parameter enters the Fock step along several paths: directly (the       *)
+(* one-centre two-electron terms), and through quantities derived from it    *)
+(* (additive terms rho0/rho1/rho2, charge separations -> two-centre          *)
+(* integrals w -> core Hamiltonian M).  The implicit backward (mode 1)       *)
+(* rebuilds the Fock step from its saved inputs and hands one partial        *)
+(* derivative per input back to autograd, which then walks the forward       *)
+(* history of those inputs.  HistoryMode "cut": the saved inputs are          *)
+(* detached first (fixed code) / "kept" (as shipped): the saved w and M       *)
+(* still lead back to the parameter, so those paths are walked inside the     *)
+(* backward AND again by autograd.  EachPathOnce: every path contributes     *)
+(* exactly once to the gradient the caller sees.                              *)
 (***************************************************************************)
 EXTENDS Integers, Sequences, FiniteSets, TLC
-CONSTANTS CopyMode
+CONSTANTS CopyMode, HistoryMode
 
 Methods == {"MNDO", "AM1", "PM3"}
 Elec == {"U_ss", "U_pp", "zeta_s", "zeta_p", "beta_s", "beta_p", "g_ss", "g_sp", "g_pp", "g_p2", "h_sp"}
@@ -27,23 +38,34 @@ Sources == {"leaf", "nonleaf", "callable"}
 Modes == {0, 1, 2}
 Outs == {"Etot", "Hf", "e_mo", "gap", "q"}
 
-VARIABLES req, stage, link, dens
-vars == <<req, stage, link, dens>>
+\* paths of a parameter into the Fock step
+OneCentre == {"g_ss", "g_sp", "g_pp", "g_p2", "h_sp"}            \* direct inputs of the Fock step
+Derived == {"g_ss", "g_pp", "g_p2", "h_sp", "zeta_s", "zeta_p"}  \* determine rho / dd / qq, hence w and (through w) M
+IntoM == {"U_ss", "U_pp", "beta_s", "beta_p", "zeta_s", "zeta_p"}
+Paths(p) == (IF p \in OneCentre THEN {"direct"} ELSE {}) \cup (IF p \in Derived THEN {"w", "Mw"} ELSE {}) \cup (IF p \in IntoM THEN {"M"} ELSE {})
+
+VARIABLES req, stage, link, dens, count
+vars == <<req, stage, link, dens, count>>
 Requests == UNION {[method : {m}, p : ParamsOf(m), src : Sources, mode : Modes] : m \in Methods}
-Init == req \in Requests /\ stage = "call" /\ link = "caller" /\ dens = FALSE
+Init == req \in Requests /\ stage = "call" /\ link = "caller" /\ dens = FALSE /\ count = [x \in {"direct", "w", "Mw", "M"} |-> 0]
 
 \* callable evaluated on (species, coordinates): its result is a non-leaf hanging on the caller's leaf
-CallLearned == /\ stage = "call" /\ stage' = "merge" /\ UNCHANGED <<req, link, dens>>
+CallLearned == /\ stage = "call" /\ stage' = "merge" /\ UNCHANGED <<req, link, dens, count>>
 \* Pack_Parameters.forward: table rows are written next to the caller's entries, the caller's tensor is kept
-Merge == /\ stage = "merge" /\ stage' = "copy" /\ UNCHANGED <<req, link, dens>>
+Merge == /\ stage = "merge" /\ stage' = "copy" /\ UNCHANGED <<req, link, dens, count>>
 Copy == /\ stage = "copy"
         /\ link' = IF CopyMode = "shallow" THEN link
                    ELSE IF req.src = "leaf" THEN "detached" ELSE "raised"    \* deepcopy: new leaf / RuntimeError
         /\ stage' = IF link' = "raised" THEN "done" ELSE "integrals"
-        /\ UNCHANGED <<req, dens>>
-Integrals == /\ stage = "integrals" /\ stage' = "scf" /\ UNCHANGED <<req, link, dens>>
+        /\ UNCHANGED <<req, dens, count>>
+Integrals == /\ stage = "integrals" /\ stage' = "scf" /\ UNCHANGED <<req, link, dens, count>>
 \* the converged density carries a differentiable dependence on the parameters iff scf_backward >= 1
-SCFStage == /\ stage = "scf" /\ dens' = (req.mode >= 1) /\ stage' = "done" /\ UNCHANGED <<req, link>>
+\* how often the backward pass through the density credits each path to the caller's tensor
+Walked(x) == IF req.mode = 0 \/ x \notin Paths(req.p) THEN 0
+             ELSE IF req.mode = 1 /\ HistoryMode = "kept" /\ x \in {"w", "Mw"} /\ req.p \in OneCentre THEN 2
+             ELSE 1
+SCFStage == /\ stage = "scf" /\ dens' = (req.mode >= 1) /\ stage' = "done"
+            /\ count' = [x \in DOMAIN count |-> Walked(x)] /\ UNCHANGED <<req, link>>
 Next == CallLearned \/ Merge \/ Copy \/ Integrals \/ SCFStage
 Spec == Init /\ [][Next]_vars /\ WF_vars(Next)
 
@@ -58,5 +80,6 @@ Required(out) == out \in {"Etot", "Hf"} \/ (out \in {"e_mo", "gap", "q"} /\ req.
 
 Accepted == stage = "done" => link # "raised"
 ReachesCaller == stage = "done" => \A out \in Outs : Required(out) => Reaches(out)
+EachPathOnce == (stage = "done" /\ dens) => \A x \in Paths(req.p) : count[x] = 1
 Finishes == <>(stage = "done")
 =============================================================================
